@@ -625,7 +625,9 @@ class _Discovery(_MessageDB):
 
             return None
 
-        for hdr, task in self.discovery_cmds.items():
+        # iterate over a snapshot: a reply handled while we await a send (e.g. a zone being
+        # promoted to its class) may add entries; these are picked up by the next pass
+        for hdr, task in list(self.discovery_cmds.items()):
             dt_now = dt.now()
 
             if (msg := find_latest_msg(hdr, task)) and (
